@@ -23,8 +23,8 @@ def cls(name, supers=(), props=(), signals=(), slots=(), methods=(), enums=(), o
                 object=object, gadget=gadget, namespace=namespace, enums=list(enums), properties=list(props),
                 signals=list(signals), slots=list(slots), methods=list(methods))
 
-def meth(name, ret='void', args=()):
-    return dict(name=name, access='public', returnType=ret, arguments=[dict(type=t) for t in args])
+def meth(name, ret='void', args=(), access='public'):
+    return dict(name=name, access=access, returnType=ret, arguments=[dict(type=t) for t in args])
 
 def enum(name, values, flag=False, alias=None, isclass=False):
     d = dict(name=name, isClass=isclass, isFlag=flag, values=values)
@@ -91,7 +91,9 @@ classes = [
            meth('peaked'), meth('peaked', args=['int']), meth('peaked', args=['int', 'int']),   # two default arguments
            meth('picked', args=['TSub*']), meth('moded', args=['Mode']), meth('fontPicked', args=['QFont'])],
         slots=[meth('act', args=['int']), meth('actText', args=['QString']), meth('actTwo', args=['int', 'int']),
-               meth('actFlag', args=['bool']), meth('actPtr', args=['TSource*']), meth('poke')],
+               meth('actFlag', args=['bool']), meth('actPtr', args=['TSource*']), meth('poke'),
+               # slots that are not public: the meta-object system could invoke them, a direct C++ call from another class cannot
+               meth('guarded', access='protected'), meth('guardedInt', args=['int'], access='protected'), meth('hidden', access='private')],
         methods=[meth('twice', 'int', ['int']), meth('label', 'QString', [])]),
     cls('TSub', supers=['TSource'], props=[rw('xval', 'int')], signals=chg('xval')),
     cls('TBroken', supers=['QWidget', 'MissingIface']),       # a QObject class that also inherits a plain C++ interface unknown to the type map
